@@ -298,6 +298,16 @@ pub fn enter(kind: Kind, site: Site, stage: u8, extra: u32, uid: u64) -> InClosu
         if w & 3 == 0 {
             spin(w);
         }
+        // in half of the perturbed cases a few calls give up the CPU or sleep for a fraction of a millisecond: a thread
+        // that pauses *inside* a closure while the others go on is what most interleaving bugs need
+        if seed & 1 == 1 {
+            let r = mix(seed as u64 ^ 0x51EE9, uid ^ ((stage as u64) << 8) ^ ((kind as u64) << 16));
+            match r % 211 {
+                0 => std::thread::sleep(std::time::Duration::from_micros(40 + (r >> 20) % 300)),
+                1..=4 => std::thread::yield_now(),
+                _ => {}
+            }
+        }
     }
     if FAULTS_ON.load(Ordering::Relaxed) {
         let slot = site_slot(site);
@@ -328,6 +338,11 @@ pub fn src_enter() {
     let s = SRC_SPIN.load(Ordering::Relaxed);
     if s > 0 {
         spin(s);
+        // now and then the thread holding the source pauses inside next(): others queue up behind it
+        let n = SRC_NEXTS.load(Ordering::Relaxed);
+        if mix(s as u64, n) % 61 == 0 {
+            std::thread::sleep(std::time::Duration::from_micros(30 + (s as u64 % 200)));
+        }
     }
 }
 #[inline]
